@@ -1,6 +1,6 @@
 #!/bin/bash
 # Regression over every kept seeded change: apply it, run the checks that are
-# recorded as catching it (quick tier), expect exit 1 from at least one of them.
+# recorded as catching it (quick tier; the property's own check when it is among them), expect exit 1.
 # usage: tools/run_all_seeded.sh [name ...]
 cd /verif
 NAMES="$@"; [ -z "$NAMES" ] && NAMES=$(ls seeded)
@@ -14,7 +14,7 @@ ids=[k.split('/')[0] for k,v in m.get('verif_checks_run_against_it',{}).items() 
 prop=m.get('property','')
 # the property's own check first
 ids=sorted(set(ids), key=lambda x: (x!=prop, x))
-print(' '.join(ids[:2]))
+print(' '.join(ids[:1]))
 PY
 )
   [ -z "$IDS" ] && { echo "$n: no catching check recorded"; FAIL=1; continue; }
